@@ -122,6 +122,9 @@ func (e *Engine) solveAll(obls []*Obl, par int, timeout int, dump string) {
 		go func(i int, o *Obl) {
 			defer wg.Done()
 			defer func() { <-sem }()
+			if o.Direct {
+				return
+			}
 			if dump != "" {
 				os.WriteFile(fmt.Sprintf("%s/o%d.smt2", dump, i), []byte(o.script(true)), 0o644)
 			}
